@@ -47,11 +47,20 @@ def runPrint (s : Req) : List Block → List String
     | none => ["reject"]
     | some (s', o) => outStr o :: runPrint s' bs
 
-/-- `c18 <name> <timeout> <forced> <n> <block>*` → the observation of every block, ` | `-separated -/
+/-- `c18 <name> <timeout> <forced> <server: - | s<hex>> <n> <block>*` → the observation of every block, ` | `-separated -/
 def c18 (toks : List String) : String :=
-  match (do let name ← Tok.str; let timeout ← Tok.int; let forced ← Tok.nat; let bs ← Tok.list parseBlock; Tok.done
-            pure (name, timeout, forced, bs) : Tok (String × Int × Nat × List Block)).run toks with
-  | some ((name, timeout, forced, bs), _) => " | ".intercalate (runPrint (Req.init asciiLower name timeout forced) bs)
+  match (do let name ← Tok.str; let timeout ← Tok.int; let forced ← Tok.nat; let server ← Tok.next; let bs ← Tok.list parseBlock; Tok.done
+            pure (name, timeout, forced, server, bs) : Tok (String × Int × Nat × String × List Block)).run toks with
+  | some ((name, timeout, forced, server, bs), _) =>
+    let s0 := Req.init asciiLower name timeout forced
+    -- `AsyncServiceInfo(type_, name, server=…)`: `self.server = server if server else None`, `server_key = server.lower()`
+    let s := if server = "-" then some s0 else
+      match strOfHex (String.ofList (server.toList.drop 1)) with
+      | some sv => some { s0 with info := { s0.info with server := some sv, serverKey := some (asciiLower sv) } }
+      | none => none
+    match s with
+    | some s => " | ".intercalate (runPrint s bs)
+    | none => "bad-op"
   | none => "bad-op"
 
 def dispatch (cmd : String) (rest : List String) : Option String :=
